@@ -49,6 +49,12 @@ func parseUrlPath(pathStr string, m meta.Definition) ([]*Path, error) {
 			}
 		}
 
+		if strings.Contains(ident, "/") {
+			// a slash that came percent-encoded is part of the name, and no name has one. (Looked
+			// up as it is it would be taken for a path of its own, to a node further down)
+			return nil, fmt.Errorf("%w. %s not found in %s", fc.NotFoundError, ident, p.Meta.Ident())
+		}
+
 		// find meta associated with path ident
 		parentDefs, hasDefs := p.Meta.(meta.HasDefinitions)
 		if !hasDefs {
